@@ -154,6 +154,23 @@ pub fn run(ctx: &'static Ctx) {
     ctx.rule("state = (set of present optional members incl. nested, menu-value deviations); every state is built through the public API, encoded by the real Response::serialize, parsed by the independent CBOR layer and compared as an unordered member set with the specification tree; non-trivial = differs from the minimal anchor");
     ctx.assume("make_credential::Response::unsigned_extension_outputs cannot be constructed outside the crate (no Default/Deserialize/constructor) and is always None");
     explore_responses(ctx, P, members_oracle);
+    {
+        let mut items: Vec<(String, Box<dyn Fn() -> String + Sync>)> = Vec::new();
+        for kind in RKINDS {
+            let sh = RShared::new(P, kind);
+            for (label, mask) in crate::reqcheck::seed_masks(&sh.plan) {
+                let wire = sh.plan.build(mask, &[]);
+                items.push((format!("{}:{}", kind.name(), label), Box::new(move || match serialize_wire(kind, &wire) {
+                    Ok(b) => hex(&b),
+                    Err(p) => format!("PANIC {}", p),
+                })));
+            }
+        }
+        for w in 0..3u64 {
+            items.push((format!("parameterless {}", w), Box::new(move || format!("{:?}", check_parameterless(w).ok))));
+        }
+        pair_histories(ctx, P, "encode call pairs", "every ordered pair of seed responses of all kinds encoded back to back on one thread: the second encoding must not depend on the first call", &items);
+    }
     sweep(ctx, "parameter-less responses", 3, "Reset, Selection, Vendor encode as the status byte alone", |idx, l| {
         l.nontrivial += 1;
         let v = check_parameterless(idx);
